@@ -51,7 +51,7 @@ class EvalContext:
         self.seen = seen if seen is not None else []
         self.namespace = namespace if namespace is not None else xl.FUNCTIONS
         self.ref = ref
-        self.sheet = self.refsheet = ref.split("!")[0]
+        self.sheet = self.refsheet = ref.rsplit("!", 1)[0]
 
     def eval_cell(self, addr):
         raise NotImplementedError()
